@@ -28,6 +28,7 @@ const (
 	EvUpdIn  = 17 // management op from inside a rule: C = op index
 	EvKey    = 18 // forRange loop key seen by the loop body  C = key
 	EvObj    = 19 // method invoked on an object kept in a local  C = the object's mark
+	EvAlias  = 22 // locals bound from injected slots and updated in place  C = 1: a local has a wrong value, 2: the injected slot changed
 	EvCallB  = 20 // API call invoked          B = method, C = client
 	EvCallR  = 21 // API call returned         B = method, C = flags (1 err, 2 panic)
 	EvMgmtB  = 30 // management op invoked     A = op index
@@ -75,6 +76,29 @@ func (n *Nobj) Ping(r int64) {
 }
 
 type OptObj struct{ ID int64 }
+
+// AliasObj is injected as AL (with the slice ALQ): rules copy its field / element into locals and update the locals.
+type AliasObj struct{ Base int64 }
+
+const (
+	aliasBase = 1000
+	aliasElem = 2000
+)
+
+// IsRuleEvent says whether an event kind is emitted from inside rules.
+func IsRuleEvent(k int32) bool { return k >= EvS && k <= EvObj || k == EvAlias }
+
+// Alias receives the locals la (= AL.Base + r) and lb (= ALQ[0] * 3) and the injected slots as they are now.
+func (h *H) Alias(r, la, lb, base, elem int64) {
+	c := int64(0)
+	if la != aliasBase+r || lb != aliasElem*3 {
+		c |= 1
+	}
+	if base != aliasBase || elem != aliasElem {
+		c |= 2
+	}
+	simrt.Emit(EvAlias, int64(h.c.Idx), r, c)
+}
 
 // TObj is the object behind three-level names T<r>.P.X.
 type TObj struct{ P *Nobj }
@@ -342,6 +366,9 @@ func (h *H) Data() map[string]interface{} {
 				d[fmt.Sprintf("VT%d", id)] = fk == s.Kind
 			case SecRangeKey:
 				d[fmt.Sprintf("MM%d", id)] = map[int64]int64{int64(id) + 700: 1}
+			case SecLocAlias:
+				d["AL"] = &AliasObj{Base: aliasBase}
+				d["ALQ"] = []int64{aliasElem}
 			case SecThreeNil, SecIfThreeNil, SecThreeSet:
 				if fk == s.Kind {
 					d[fmt.Sprintf("T%d", id)] = &TObj{}
